@@ -17,27 +17,58 @@ def _run_task(task):
             from contracts.schema import core_schema
             from contracts import registry
 
-            prog = Program()
-            R = registry.build()
-            ex = Executor(prog, core_schema(), R["contracts"], inline=R["inline"])
-            ex.loop_specs.update(R["loops"])
-            q = task["qualname"]
-            c = R["contracts"].get(q) or R["getter_contracts"][q]
-            ver = R["verifiers"][q]
-            opt = R.get("options", {}).get(q, {})
-            ex.merge_enabled = opt.get("merge", True)
-            kw = dict(task.get("kw") or {})
-            fr = ver(ex, c, timeout_ms=task.get("timeout_ms", 30000), **kw)
-            d = fr.to_dict()
-            d["task"] = task
+            def attempt(alpha):
+                prog = Program(alpha=alpha)
+                R = registry.build()
+                ex = Executor(prog, core_schema(), R["contracts"], inline=R["inline"])
+                ex.loop_specs.update(R["loops"])
+                q = task["qualname"]
+                c = R["contracts"].get(q) or R["getter_contracts"][q]
+                ver = R["verifiers"][q]
+                opt = R.get("options", {}).get(q, {})
+                ex.merge_enabled = opt.get("merge", True)
+                kw = dict(task.get("kw") or {})
+                fr = ver(ex, c, timeout_ms=task.get("timeout_ms", 30000), **kw)
+                d = fr.to_dict()
+                d["task"] = task
+                fi = prog.func(q)
+                d["nstmts"] = fi.nstmts()
+                d["contract_note"] = getattr(c, "note", "")
+                return d, prog
+
+            d, prog = attempt(False)
+            if d.get("undecided") and prog.alpha_candidates():
+                # the contracts name locals (accumulators of loops) that this tree spells differently: retry on the alpha-renamed AST.  The
+                # renaming is a guess (binding order); whatever is proved under it is proved (every obligation is re-derived from the renamed
+                # real body), a refutation under it is only reported as a violation when it replays on the real code (pyvc.report.finish)
+                d2, prog2 = attempt(True)
+                if not d2.get("undecided"):
+                    d = d2
+                    used = {q: m for q, m in prog2.alpha.items() if q == task["qualname"] or q in ((d2.get("stats") or {}).get("inlined") or [])}
+                    d["alpha"] = used or prog2.alpha
+                    for o in d.get("results", []):
+                        o["alpha"] = True
             d["wall_s"] = round(time.time() - t0, 3)
-            fi = prog.func(q)
-            d["nstmts"] = fi.nstmts()
-            d["contract_note"] = getattr(c, "note", "")
             return d
         mod = importlib.import_module(task["module"])
         fn = getattr(mod, task["fn"])
         d = fn(task)
+        if d.get("undecided") or any(o.get("verdict") != "proved" for o in d.get("results", [])):
+            from pyvc.source import Program
+
+            cands = Program(alpha=False).alpha_candidates()
+            if cands and os.environ.get("PYVC_ALPHA") != "1":
+                # same second attempt as for functions under contract: obligations that name locals are re-decided on the alpha-renamed AST
+                os.environ["PYVC_ALPHA"] = "1"
+                try:
+                    d2 = fn(task)
+                finally:
+                    os.environ.pop("PYVC_ALPHA", None)
+                if not d2.get("undecided") and all(o.get("verdict") == "proved" for o in d2.get("results", [])):
+                    d = d2
+                    d["alpha"] = cands
+                    for o in d.get("results", []):
+                        o["alpha"] = True
         d["task"] = task
         d["wall_s"] = round(time.time() - t0, 3)
         return d
